@@ -160,6 +160,37 @@ pub fn try_mount(img: &Store, strict: bool) -> Verdict {
     }
 }
 
+/// values just below / at / just above every quantity the volume's own geometry defines (cluster count,
+/// last cluster number, sector counts, region starts): the places where a range check is off by one
+pub fn geometry_edges(img: &Store) -> Vec<u64> {
+    let mut v = vec![];
+    if let Ok(g) = refdec::coherent(&refdec::raw_bpb(img)) {
+        let raw = refdec::raw_bpb(img);
+        let qs = [
+            u64::from(g.n_clusters),
+            u64::from(g.n_clusters) + 2,
+            u64::from(raw.tot32),
+            u64::from(raw.tot16),
+            u64::from(raw.fatsz32),
+            u64::from(raw.fatsz16),
+            g.data_off / u64::from(g.bps),
+            u64::from(g.reserved),
+            img.len / u64::from(g.bps),
+        ];
+        for q in qs {
+            for d in -3i64..=3 {
+                let x = q as i64 + d;
+                if (0..=i64::from(u32::MAX)).contains(&x) {
+                    v.push(x as u64);
+                }
+            }
+        }
+    }
+    v.sort_unstable();
+    v.dedup();
+    v
+}
+
 fn poke(img: &mut Store, off: u64, len: usize, val: u64) {
     let b = val.to_le_bytes();
     img.write_at(off, &b[..len]);
@@ -221,9 +252,13 @@ pub fn single_field(item: u64) -> RunOutcome {
                 v.push(r.next_u64() & 0xFFFF_FFFF);
                 v.push(r.below(200_000));
             }
+            if chunk == 40 {
+                v.extend(geometry_edges(&basei));
+            }
             v
         }
     };
+    // 16-bit and 8-bit fields are enumerated completely, so the geometry-derived edges are already among them
     for val in vals {
         for strict in [true, false] {
             if !strict && off != 510 && off != 0 && val % 7 != 0 {
